@@ -46,7 +46,7 @@ impl Callbacks for Cb {
         if tcx.sess.opts.test {
             return Compilation::Continue;
         }
-        let mut ex = Exporter { tcx, types: Vec::new(), type_ix: HashMap::new() };
+        let mut ex = Exporter { tcx, types: Vec::new(), type_ix: HashMap::new(), ext_queue: Vec::new(), ext_seen: HashMap::new() };
         let j = ex.export_crate(&crate_name);
         let path = format!("{}/{}.json", out, crate_name);
         let text = j.to_string();
@@ -69,6 +69,23 @@ struct Exporter<'tcx> {
     tcx: TyCtxt<'tcx>,
     types: Vec<J>,
     type_ix: HashMap<Ty<'tcx>, usize>,
+    /// instances of generic / inline std functions whose (library) MIR is exported as a fall-back for the interpreter's hand-written models
+    ext_queue: Vec<(DefId, GenericArgsRef<'tcx>, TypingEnv<'tcx>, String)>,
+    ext_seen: HashMap<String, ()>,
+}
+
+/// std items whose MIR is plain safe code worth interpreting (iterator default methods, Option/Result/bool combinators).
+fn ext_wanted(path: &str) -> bool {
+    const P: [&str; 7] = [
+        "core::iter::traits::iterator::Iterator::",
+        "core::iter::traits::double_ended::DoubleEndedIterator::",
+        "core::option::Option::<",
+        "core::result::Result::<",
+        "core::bool::<impl bool>::",
+        "core::iter::adapters::",
+        "core::ops::try_trait::",
+    ];
+    P.iter().any(|p| path.starts_with(p))
 }
 
 fn np<F: FnOnce() -> String>(f: F) -> String {
@@ -319,6 +336,16 @@ impl<'tcx> Exporter<'tcx> {
             }
         }
 
+        // library MIR of the std combinators the crate instantiates (transitively, within the wanted families)
+        let mut ext_fns = Vec::new();
+        while let Some((d, args, env, ek)) = self.ext_queue.pop() {
+            let inst = Instance::new_raw(d, args);
+            let body: &Body<'tcx> = tcx.instance_mir(inst.def);
+            let mono: Body<'tcx> = inst.instantiate_mir_and_normalize_erasing_regions(tcx, env, ty::EarlyBinder::bind(body.clone()));
+            let m = self.export_body(&mono, env);
+            ext_fns.push(J::obj(vec![("key", J::s(ek)), ("path", J::s(self.path(d))), ("mir", m)]));
+        }
+
         let mut feats: Vec<String> = tcx
             .sess
             .config
@@ -343,6 +370,7 @@ impl<'tcx> Exporter<'tcx> {
             ("statics", J::Arr(statics)),
             ("consts", J::Arr(consts)),
             ("fns", J::Arr(fns)),
+            ("ext_fns", J::Arr(ext_fns)),
             ("unsafe_sites", J::Arr(uses_unsafe)),
             ("types", J::Arr(std::mem::take(&mut self.types))),
         ])
@@ -866,6 +894,17 @@ impl<'tcx> Exporter<'tcx> {
                     f.push(("local", J::b(d.is_local())));
                     f.push(("key", J::s(self.fn_key(d))));
                     f.push(("path", J::s(self.path(d))));
+                    if kind == "item" && !d.is_local() && std::env::var("MIRX_EXT").map(|v| v != "0").unwrap_or(true) {
+                        let p = self.path(d);
+                        if ext_wanted(&p) && tcx.is_mir_available(d) && self.ext_seen.len() < 400 {
+                            let ek = np(|| format!("ext:{}<{}>", p, inst.args.iter().map(|a| format!("{}", a)).collect::<Vec<_>>().join(", ")));
+                            f.push(("ext_body", J::s(ek.clone())));
+                            if !self.ext_seen.contains_key(&ek) {
+                                self.ext_seen.insert(ek.clone(), ());
+                                self.ext_queue.push((d, inst.args, env, ek));
+                            }
+                        }
+                    }
                     let ia = self.gen_args(inst.args);
                     f.push(("args", ia));
                     if let InstanceKind::FnPtrShim(_, t) = inst.def {
